@@ -937,6 +937,12 @@ class Interp:
 
     def binop(self, op: ast.operator, l: AV, r: AV) -> AV:
         outs: List[AV] = []
+        # "text" + unknown is text (anything else raises TypeError at run time)
+        if isinstance(op, ast.Add):
+            if isinstance(l, Str) and isinstance(r, Top):
+                return str_concat(l, Str.hole())
+            if isinstance(r, Str) and isinstance(l, Top):
+                return str_concat(Str.hole(), r)
         for a in alts_of(l):
             for b in alts_of(r):
                 if isinstance(op, ast.Add) and isinstance(a, Str) and isinstance(b, Str):
